@@ -112,7 +112,7 @@ _TLA_RESERVED = {
 
 
 def run(main_module, cfg, *, extra_files=None, workers=16, timeout=900,
-        on_value=None, env=None, simulate=None, depth=None, seed=None,
+        on_value=None, on_raw=None, env=None, simulate=None, depth=None, seed=None,
         coverage=False, heap="12g", keep=False, dfs=False, extra_args=()):
     """Run TLC.
 
@@ -148,7 +148,7 @@ def run(main_module, cfg, *, extra_files=None, workers=16, timeout=900,
             with open(os.path.join(d, fn), mode) as f:
                 f.write(content)
         jopts = ["-XX:+UseParallelGC", "-Xmx" + heap, "-Xss64m",
-                 "-DTLA-Library=" + SPEC_DIR]
+                 "-DTLA-Library=" + SPEC_DIR + os.pathsep + os.path.join(SPEC_DIR, "mc")]
         if dfs:
             jopts.append("-Dtlc2.tool.queue.IStateQueue=StateDeque")
         cmd = ["java"] + jopts + ["-cp", JAR + ":" + DEPS, "tlc2.TLC",
@@ -182,6 +182,9 @@ def run(main_module, cfg, *, extra_files=None, workers=16, timeout=900,
                     p.kill()
                     raise TLCError("TLC timed out after %ss" % timeout)
                 line = line.rstrip("\n")
+                if on_raw is not None and line.startswith('"{') and line.endswith('}"'):
+                    on_raw(line)
+                    continue
                 if line.startswith('"') and line.endswith('"'):
                     try:
                         val = json.loads(json.loads(line))
